@@ -34,6 +34,8 @@ const (
 	H63
 	Full
 	Mid  // a single value in the middle (32768)
+	LowHalf
+	UpHalf
 	Hole // not a content atom: after building, remove 32768 and 0 (full chunk minus holes)
 	NAtoms
 )
@@ -52,6 +54,8 @@ var Atoms = [NAtoms]Atom{
 	H63:    {"h63", 65472, 1, 63, 1},
 	Full:   {"full", 0, 1, 65536, 1},
 	Mid:    {"mid", 32768, 1, 1, 1},
+	LowHalf: {"lowhalf", 0, 1, 32768, 1},
+	UpHalf:  {"uphalf", 32768, 1, 32768, 1},
 	Hole:   {"hole", 0, 0, 0, 1},
 }
 
